@@ -169,13 +169,19 @@ theorem paused_no_object_writes (cfg : Cfg) (rm : Remotes) (name : String) (s : 
             | err => simp; rw [hrev.1, hf]
           | ok m2 =>
             have hl2 := hrev.2 m2 rfl
-            simp only [activePhases]
+            -- the pause hand-over at the head of the pass (fix C09-b) writes no managed object
+            have hb : (beforePhases rm m2 s2.w).events = s2.w.events := by
+              simp only [beforePhases, hl2, if_true]
+              exact foldl_sync_events rm hsync m2 _ _
+            simp only [activePhases, activePhasesCore]
             split
             · simp only [statusFromError, Pko.Lemmas.ObjectSet.afterStatus_fst, Pko.Lemmas.ObjectSet.updateStatus_events]
-              rw [hrev.1, hf]
-            · have hph := paused_phases_no_writes cfg m2.owner (lookupPrev s2 m2) (rm.recon m2) (hrem m2)
-                (by simp [OSet.owner, hl2]) m2.phases s2.w []
-              cases hrp : reconcilePhases cfg m2.owner (lookupPrev s2 m2) (rm.recon m2) m2.phases s2.w [] with
+              rw [hb, hrev.1, hf]
+            · have hph := paused_phases_no_writes cfg m2.owner
+                (lookupPrev { s2 with w := beforePhases rm m2 s2.w } m2) (rm.recon m2) (hrem m2)
+                (by simp [OSet.owner, hl2]) m2.phases (beforePhases rm m2 s2.w) []
+              cases hrp : reconcilePhases cfg m2.owner (lookupPrev { s2 with w := beforePhases rm m2 s2.w } m2)
+                  (rm.recon m2) m2.phases (beforePhases rm m2 s2.w) [] with
               | mk w3 pr =>
                 rw [hrp] at hph; simp only at hph
                 have hap := afterPhases_events rm hsync m2 pr w3
@@ -184,11 +190,11 @@ theorem paused_no_object_writes (cfg : Cfg) (rm : Remotes) (name : String) (s : 
                 | error e =>
                   cases e <;>
                     simp only [statusFromError, Pko.Lemmas.ObjectSet.afterStatus_fst, Pko.Lemmas.ObjectSet.updateStatus_events] <;>
-                    rw [hap, hph, hrev.1, hf]
+                    rw [hap, hph, hb, hrev.1, hf]
                 | ok v =>
                   obtain ⟨co, failing⟩ := v
                   simp only [finish, Pko.Lemmas.ObjectSet.afterStatus_fst, Pko.Lemmas.ObjectSet.updateStatus_events]
-                  rw [hap, hph, hrev.1, hf]
+                  rw [hap, hph, hb, hrev.1, hf]
 
 /-- the pass ends with exactly one status update carrying `finishMem` of the derived status. -/
 theorem finish_event (s : Sys) (m : OSet) (res : Res) :
